@@ -244,3 +244,150 @@ Proof. vm_compute. reflexivity. Qed.
 Lemma ew_overwrite_example :
   map ev_data (em_overwrite [ew_lock 7 5; ew_lock 8 9; ew_lock 7 7]) = [[(7, 7)]; [(8, 9)]].
 Proof. vm_compute. reflexivity. Qed.
+
+(* ---------- field-wise additive merge: every field, every subkey, every index keeps its total ---------- *)
+
+Lemma emf_map_add1_total : forall k a k' v,
+  emf_total k (emf_map_add1 a k' v) = emf_total k a + (if Z.eqb k' k then v else 0).
+Proof.
+  intros k a k' v. induction a as [|[k0 x] tl IH].
+  - cbn. lia.
+  - cbn [emf_map_add1]. destruct (Z.eqb_spec k0 k') as [E|N].
+    + subst k0. cbn [emf_total]. destruct (Z.eqb k' k); lia.
+    + cbn [emf_total]. rewrite IH. lia.
+Qed.
+
+Lemma emf_map_add_total : forall k b a, emf_total k (emf_map_add a b) = emf_total k a + emf_total k b.
+Proof.
+  intros k b. unfold emf_map_add. induction b as [|[k' v] tl IH]; intro a.
+  - cbn. lia.
+  - cbn [fold_left fst snd]. rewrite IH, emf_map_add1_total. cbn [emf_total]. lia.
+Qed.
+
+(* the merge function adds field by field, whatever is zero or empty in either event *)
+Lemma emf_add_total : forall f k a b, List.length a = List.length b ->
+  emf_total k (emf_field f (emf_add a b)) = emf_total k (emf_field f a) + emf_total k (emf_field f b).
+Proof.
+  unfold emf_field. intros f k a. revert f. induction a as [|fa ta IH]; intros f b L.
+  - destruct b; [|discriminate]. destruct f; cbn; lia.
+  - destruct b as [|fb tb]; [discriminate|]. cbn [emf_add]. destruct f as [|f].
+    + cbn [nth]. apply emf_map_add_total.
+    + cbn [nth]. apply IH. cbn in L. lia.
+Qed.
+
+Lemma emf_add_length : forall a b, List.length (emf_add a b) = List.length a.
+Proof.
+  induction a as [|fa ta IH]; intro b; [reflexivity|]. destruct b; [reflexivity|]. cbn. f_equal. apply IH.
+Qed.
+
+Definition emf_shaped (n : nat) (e : emf_event) : Prop := List.length (fe_fields e) = n.
+
+Lemma emf_fold_total : forall n f k idx es acc,
+  Forall (emf_shaped n) es -> (forall a, acc = Some a -> emf_shaped n a /\ fe_index a = idx) ->
+  match emf_fold idx es acc with
+  | Some r => emf_shaped n r /\ fe_index r = idx /\
+              emf_total k (emf_field f (fe_fields r)) =
+                (match acc with Some a => emf_total k (emf_field f (fe_fields a)) | None => 0 end) + emf_idx_total f k idx es
+  | None => acc = None /\ emf_idx_total f k idx es = 0
+  end.
+Proof.
+  intros n f k idx es. induction es as [|e tl IH]; intros acc F A.
+  - cbn. destruct acc as [a|]; [destruct (A a eq_refl) as [A1 A2]; repeat split; [exact A1|exact A2|lia] | split; reflexivity].
+  - inversion F as [|x l Fe Ft]; subst. cbn [emf_fold emf_idx_total].
+    destruct (Z.eqb_spec (fe_index e) idx) as [E|N].
+    + destruct acc as [a|].
+      * destruct (A a eq_refl) as [A1 A2].
+        set (m := {| fe_index := fe_index a; fe_fields := emf_add (fe_fields a) (fe_fields e) |}).
+        assert (P : forall a0, Some m = Some a0 -> emf_shaped n a0 /\ fe_index a0 = idx).
+        { intros a0 X. inversion X; subst a0. split; [|exact A2]. unfold emf_shaped, m. cbn [fe_fields]. rewrite emf_add_length. exact A1. }
+        specialize (IH (Some m) Ft P). destruct (emf_fold idx tl (Some m)) as [r|].
+        -- destruct IH as [I1 [I2 I3]]. repeat split; [exact I1|exact I2|]. rewrite I3. unfold m. cbn [fe_fields].
+           rewrite emf_add_total; [lia|]. unfold emf_shaped in A1, Fe. lia.
+        -- destruct IH as [I1 _]. discriminate.
+      * assert (P : forall a0, Some e = Some a0 -> emf_shaped n a0 /\ fe_index a0 = idx).
+        { intros a0 X. inversion X; subst a0. split; [exact Fe|exact E]. }
+        specialize (IH (Some e) Ft P). destruct (emf_fold idx tl (Some e)) as [r|].
+        -- destruct IH as [I1 [I2 I3]]. repeat split; [exact I1|exact I2|]. rewrite I3. lia.
+        -- destruct IH as [I1 _]. discriminate.
+    + specialize (IH acc Ft A). destruct (emf_fold idx tl acc) as [r|].
+      * destruct IH as [I1 [I2 I3]]. repeat split; [exact I1|exact I2|]. rewrite I3. lia.
+      * destruct IH as [I1 I2]. split; [exact I1|]. rewrite I2. lia.
+Qed.
+
+Lemma emf_indices_spec : forall es seen,
+  NoDup (emf_indices es seen) /\ (forall i, In i (emf_indices es seen) -> ~ In i seen) /\
+  (forall e, In e es -> In (fe_index e) seen \/ In (fe_index e) (emf_indices es seen)).
+Proof.
+  induction es as [|e tl IH]; intro seen.
+  - cbn. repeat split; [constructor | intros i [] | intros e []].
+  - cbn [emf_indices]. destruct (existsb (Z.eqb (fe_index e)) seen) eqn:S.
+    + destruct (IH seen) as [N [D C]]. repeat split; [exact N|exact D|].
+      intros x [X|X]; [subst; left; apply em_mem_in; exact S | apply C; exact X].
+    + destruct (IH (fe_index e :: seen)) as [N [D C]]. repeat split.
+      * constructor; [|exact N]. intro I. apply (D _ I). left. reflexivity.
+      * intros i [I|I].
+        -- subst. intro J. apply em_mem_in in J. rewrite J in S. discriminate.
+        -- intro J. apply (D _ I). right. exact J.
+      * intros x [X|X]; [subst; right; left; reflexivity|].
+        destruct (C x X) as [[Y|Y]|Y]; [right; left; exact Y | left; exact Y | right; right; exact Y].
+Qed.
+
+Lemma emf_idx_total_absent : forall f k idx es, (forall e, In e es -> fe_index e <> idx) -> emf_idx_total f k idx es = 0.
+Proof.
+  induction es as [|e tl IH]; intro A; [reflexivity|]. cbn [emf_idx_total].
+  destruct (Z.eqb_spec (fe_index e) idx) as [E|_]; [exfalso; exact (A e (or_introl eq_refl) E)|].
+  rewrite IH; [reflexivity|]. intros x X. apply A. right. exact X.
+Qed.
+
+(* the merged events carry, per index, per field and per subkey, exactly the total of the events of the block *)
+Lemma emf_merge_total : forall n f k idx es, Forall (emf_shaped n) es ->
+  emf_idx_total f k idx (emf_merge es) = emf_idx_total f k idx es.
+Proof.
+  intros n f k idx es F. unfold emf_merge.
+  assert (H : forall l, emf_idx_total f k idx (flat_map (fun i => match emf_fold i es None with Some e => [e] | None => [] end) l)
+                        = fold_right (fun i s => (if Z.eqb idx i then emf_idx_total f k idx es else 0) + s) 0 l).
+  { induction l as [|i l IH]; [reflexivity|]. cbn [flat_map fold_right].
+    assert (App : forall a b, emf_idx_total f k idx (a ++ b) = emf_idx_total f k idx a + emf_idx_total f k idx b).
+    { induction a as [|x a IHa]; intro b; [reflexivity|]. cbn [app emf_idx_total]. rewrite IHa. lia. }
+    rewrite App, IH.
+    pose proof (emf_fold_total n f k i es None F) as P.
+    assert (Q : forall a, None = Some a -> emf_shaped n a /\ fe_index a = i) by (intros a E; discriminate). specialize (P Q).
+    destruct (emf_fold i es None) as [r|].
+    - destruct P as [_ [P2 P3]]. cbn [emf_idx_total]. rewrite P2.
+      destruct (Z.eqb_spec idx i) as [E|N].
+      + subst i. rewrite Z.eqb_refl, P3. lia.
+      + destruct (Z.eqb_spec i idx) as [E|_]; [exfalso; apply N; symmetry; exact E|]. lia.
+    - destruct P as [_ P2]. cbn [emf_idx_total].
+      destruct (Z.eqb_spec idx i) as [E|N]; [subst i; rewrite P2|]; lia. }
+  rewrite H. destruct (emf_indices_spec es []) as [N [_ C]].
+  destruct (in_dec Z.eq_dec idx (emf_indices es [])) as [I|NI].
+  - apply em_pick_once; assumption.
+  - assert (Z0 : emf_idx_total f k idx es = 0).
+    { apply emf_idx_total_absent. intros e Ie E. destruct (C e Ie) as [[]|X]. apply NI. rewrite <- E. exact X. }
+    rewrite Z0. clear. induction (emf_indices es []) as [|i l IH]; [reflexivity|]. cbn [fold_right]. rewrite IH. destruct (Z.eqb idx i); reflexivity.
+Qed.
+
+(* the generated table: every tag of the spec is merged by exactly the listed additions, and every
+   withEventMerge merger is in the spec or replaces by key *)
+Lemma em_spec_table : em_spec_holds gen_event_mergers gen_merge_fns = true /\ em_merge_tags_covered gen_event_mergers = true.
+Proof. vm_compute. split; reflexivity. Qed.
+
+Lemma em_spec_in : forall tag fields, In (tag, fields) em_additive_spec ->
+  exists fs, em_fn_of gen_merge_fns tag = Some (MfAdd fs) /\ em_fields_eqb fs fields = true.
+Proof.
+  intros tag fields I. destruct em_spec_table as [S _]. unfold em_spec_holds in S. rewrite forallb_forall in S.
+  specialize (S _ I). cbn [fst snd] in S. apply andb_prop in S as [_ S].
+  destruct (em_fn_of gen_merge_fns tag) as [[fs|]|]; try discriminate. exists fs. split; [reflexivity|exact S].
+Qed.
+
+(* stake pool reward events of one provider and reward type: the second has no provider share (service charge
+   rounds to 0) but delegate rewards; a third carries only a penalty *)
+Definition ew_reward (idx reward : Z) (drew dpen : emf_map) : emf_event :=
+  {| fe_index := idx; fe_fields := [[(0, reward)]; drew; dpen] |}.
+Definition ew_rewards : list emf_event :=
+  [ew_reward 1 10 [(21, 90)] []; ew_reward 2 3 [] []; ew_reward 1 0 [(21, 5); (22, 4)] []; ew_reward 1 0 [] [(22, 1)]].
+
+Lemma ew_reward_example :
+  emf_merge ew_rewards = [ew_reward 1 10 [(21, 95); (22, 4)] [(22, 1)]; ew_reward 2 3 [] []] /\
+  emf_idx_total 1 21 1 (emf_merge ew_rewards) = 95 /\ emf_idx_total 1 22 1 (emf_merge ew_rewards) = 4.
+Proof. vm_compute. repeat split. Qed.
